@@ -180,6 +180,16 @@ extern "C" void harness()
 		vf_assert(! r && n2 == 1, 214);                  // forEachIf stops at once and says so, like the callback list's
 		bool r3 = d->forEachIf(mk(k1), [&](const D::Handle &, const D::Callback &) -> bool { return true; });
 		vf_assert(r3, 215);
+		if(kd != k1 && kd != k2) {
+			// an event nobody ever listened to has no callback list: removing "from it" removes nothing, whatever handle is passed,
+			// creates nothing, and leaves the listeners of the other events alone
+			D::Handle h1; d->forEachIf(mk(k1), [&](const D::Handle & h, const D::Callback &) -> bool { h1 = h; return false; });
+			bool rr = d->removeListener(mk(kd), h1);
+			vf_assert(! rr, 216);
+			vf_assert(! d->hasAnyListener(mk(kd)) && d->ownsHandle(mk(k1), h1) && ! d->ownsHandle(mk(kd), h1), 217);
+			int n3 = 0; d->forEach(mk(k1), [&](const D::Handle &, const D::Callback &) { n3++; });
+			vf_assert(n3 == (k1 == k2 ? 4 : 2), 218);
+		}
 	}
 	g_tr.clear(); g_ok = true; g_expect_key = kd; g_expect_val = val;
 #if CFG == 8
